@@ -5,7 +5,7 @@ from typing import List, Optional, Set, Dict, Union
 from excel2pycl.src.handle_cell import handle_cell
 from excel2pycl.src.utilities.abstract_excel_in_python_class import AbstractExcelInPython
 from excel2pycl.src.cell import Cell
-from excel2pycl.src.exceptions import E2PyclExecutorException
+from excel2pycl.src.exceptions import E2PyclCellException, E2PyclExecutorException
 from excel2pycl.src.object_loader import load_module
 
 
@@ -65,6 +65,8 @@ class Executor:
         # every address is resolved before anything is stored: a batch that is rejected leaves sizes and overrides alone
         for cell in cells:
             handle_cell(cell, self._titles)
+            if not 0 <= cell.title < len(self._sheets_size):
+                raise E2PyclCellException(f'There is no sheet number {cell.title}')
 
         for cell in cells:
             sheet = cell.title
